@@ -375,6 +375,14 @@ theorem blockTail_P {cfg : Cfg} {startT : Option Tree} {tn : Option Name} {v : L
           · simp only [Prod.mk.injEq, MRes.raise.injEq] at heq
             exact Prov.of_ne (lit_ne hfor (Or.inr (Or.inl heq.1.symm)))
         · simp only [Prod.mk.injEq, MRes.raise.injEq] at heq
+          exact Prov.of_ne (lit_ne hfor (Or.inl heq.1.symm))
+      · split at heq
+        · split at heq
+          · simp only [Prod.mk.injEq, MRes.raise.injEq] at heq
+            exact Prov.of_ne (lit_ne hfor (Or.inl heq.1.symm))
+          · simp only [Prod.mk.injEq, MRes.raise.injEq] at heq
+            exact Prov.of_ne (lit_ne hfor (Or.inr (Or.inl heq.1.symm)))
+        · simp only [Prod.mk.injEq, MRes.raise.injEq] at heq
           obtain ⟨rfl, rfl⟩ := heq
           intro h
           refine ⟨h.symm, ?_⟩
